@@ -70,6 +70,7 @@ structure Op where
   mpiDone : Bool := false   -- MPI has reported the request complete
   sigs : Nat := 0           -- completion signals sent to the receiver
   cbs : Nat := 0            -- invocations of the registered callback
+  rel : Nat := 0            -- times the adaptor released the operation's stored arguments (`ts`)
   deriving Repr
 
 inductive Ev where
@@ -94,6 +95,7 @@ inductive Ev where
   | ret (a x : Nat)
   | gacDec (a x : Nat)
   | woke (a x : Nat)
+  | rel (a x : Nat)
   | pollOn (a : Nat) (stm : Bool)
   | pollOff (a : Nat)
   | stopRet (a v : Nat)
@@ -230,6 +232,14 @@ def step (s : St) : Ev → Option St
   | .woke _ x =>
     let o := s.op x
     if x < s.n ∧ o.pc = .completed then some (setOp s x { o with pc := .woken }) else none
+  | .rel _ x =>
+    -- the adaptor lets go of the arguments it decay-copied for the MPI call (`op_state.ts = {}` in a
+    -- request callback, or the destruction of the operation state): once per operation, and for a
+    -- call that was posted successfully only after MPI has reported the request complete
+    let o := s.op x
+    if x < s.n ∧ o.rel = 0 ∧ (o.okPost = false ∨ o.mpiDone = true) then
+      some (setOp s x { o with rel := 1 })
+    else none
   | .pollOn _ stm =>
     -- detail::register_polling(pool): waits for all_in_flight_ == 0, then installs the function
     if s.installed = false ∧ s.inFlight = 0 then
